@@ -33,11 +33,18 @@ Definition r_unsub_all (c : Z) (f : rmap) : rmap := upd f c [].
    SDO client->server 0x600+n, heartbeat 0x700+n.  A proxy for a remote node listens to what the
    node transmits (SDO response, heartbeat, EMCY) and tracks NMT commands; a local node listens to
    SDO requests and NMT commands. *)
-Definition ref_handlers (o : nobj) : list (Z * handler) :=
+(* additional SDO channels of a proxy: the k-th one listens on its own response COB-ID *)
+Fixpoint ref_extras (o : nobj) (k : Z) (txs : list Z) : list (Z * handler) :=
+  match txs with
+  | [] => []
+  | tx :: r => (tx, HNode o (KSdoExtra k)) :: ref_extras o (k + 1) r
+  end.
+
+Definition ref_handlers (txs : list Z) (o : nobj) : list (Z * handler) :=
   let n := o_nid o in
   if o_local o then [(1536 + n, HNode o KSdoReq); (0, HNode o KNmt)]
-  else [(1408 + n, HNode o KSdoResp); (1792 + n, HNode o KHeartbeat); (128 + n, HNode o KEmcy);
-        (0, HNode o KNmt)].
+  else (1408 + n, HNode o KSdoResp) :: ref_extras o 1 txs ++
+       [(1792 + n, HNode o KHeartbeat); (128 + n, HNode o KEmcy); (0, HNode o KNmt)].
 
 Definition r_sub_all (chs : list (Z * handler)) (f : rmap) : rmap :=
   fold_left (fun f ch => r_sub (fst ch) (snd ch) f) chs f.
@@ -65,45 +72,62 @@ Definition ref_scan_step (found : list Z) (id : Z) : list Z :=
   end.
 Definition ref_scan (ids : list Z) : list Z := fold_left ref_scan_step ids [].
 
-Record rnet := { r_map : rmap; r_nodes : Z -> option nobj; r_scan : list Z }.
+Record rnet := { r_map : rmap; r_nodes : Z -> option nobj; r_scan : list Z;
+                 r_chans : nobj -> list Z   (* response COB-IDs of the additional SDO channels *) }.
 
 Definition ref_init : rnet :=
-  {| r_map := fun c => if c =? LSS_RX_COBID then [HLss] else []; r_nodes := fun _ => None; r_scan := [] |}.
+  {| r_map := fun c => if c =? LSS_RX_COBID then [HLss] else []; r_nodes := fun _ => None; r_scan := [];
+     r_chans := fun _ => [] |}.
 
 Definition ref_deliver (c : Z) (data : list Z) (ts : Z) (r : rnet) : rnet * list delivery :=
-  ({| r_map := r_map r; r_nodes := r_nodes r; r_scan := ref_scan_step (r_scan r) c |},
+  ({| r_map := r_map r; r_nodes := r_nodes r; r_scan := ref_scan_step (r_scan r) c; r_chans := r_chans r |},
    map (fun h => (h, c, data, ts)) (r_map r c)).
 
 Definition ref_detach (n : Z) (r : rnet) : rmap * bool :=
   match r_nodes r n with
-  | Some old => r_unsub_seq (ref_handlers old) (r_map r)
+  | Some old => r_unsub_seq (ref_handlers (r_chans r old) old) (r_map r)
   | None => (r_map r, true)
   end.
 
+Definition with_map (r : rnet) (f : rmap) : rnet :=
+  {| r_map := f; r_nodes := r_nodes r; r_scan := r_scan r; r_chans := r_chans r |}.
+
+Definition ref_registered (o : nobj) (r : rnet) : bool :=
+  match r_nodes r (o_nid o) with Some o' => nobj_eqb o o' | None => false end.
+
 Definition ref_step (o : op) (r : rnet) : rnet * list delivery :=
   match o with
-  | OSub c u => ({| r_map := r_sub c (HUser u) (r_map r); r_nodes := r_nodes r; r_scan := r_scan r |}, [])
+  | OSub c u => (with_map r (r_sub c (HUser u) (r_map r)), [])
   | OUnsub c (Some h) =>
       match r_unsub1 c h (r_map r) with
-      | Some f => ({| r_map := f; r_nodes := r_nodes r; r_scan := r_scan r |}, [])
+      | Some f => (with_map r f, [])
       | None => (r, [])
       end
-  | OUnsub c None => ({| r_map := r_unsub_all c (r_map r); r_nodes := r_nodes r; r_scan := r_scan r |}, [])
+  | OUnsub c None => (with_map r (r_unsub_all c (r_map r)), [])
   | OAdd o =>
       let '(f1, ok) := ref_detach (o_nid o) r in
-      if ok then ({| r_map := r_sub_all (ref_handlers o) f1; r_nodes := upd (r_nodes r) (o_nid o) (Some o);
-                     r_scan := r_scan r |}, [])
-      else ({| r_map := f1; r_nodes := r_nodes r; r_scan := r_scan r |}, [])
+      if ok then ({| r_map := r_sub_all (ref_handlers (r_chans r o) o) f1;
+                     r_nodes := upd (r_nodes r) (o_nid o) (Some o);
+                     r_scan := r_scan r; r_chans := r_chans r |}, [])
+      else (with_map r f1, [])
   | ODel n =>
       match r_nodes r n with
       | None => (r, [])
       | Some _ =>
           let '(f1, ok) := ref_detach n r in
-          ({| r_map := f1; r_nodes := if ok then upd (r_nodes r) n None else r_nodes r; r_scan := r_scan r |}, [])
+          ({| r_map := f1; r_nodes := if ok then upd (r_nodes r) n None else r_nodes r; r_scan := r_scan r;
+              r_chans := r_chans r |}, [])
       end
   | ONotify c data ts => ref_deliver c data ts r
   | ORecv f => if f_err f || f_remote f then (r, []) else ref_deliver (f_id f) (f_data f) (f_ts f) r
-  | OScanReset => ({| r_map := r_map r; r_nodes := r_nodes r; r_scan := [] |}, [])
+  | OScanReset => ({| r_map := r_map r; r_nodes := r_nodes r; r_scan := []; r_chans := r_chans r |}, [])
+  | OAddSdo o rx tx =>
+      if o_local o then (r, [])        (* only proxies of remote nodes have SDO client channels *)
+      else
+        let k := Z.of_nat (length (r_chans r o)) + 1 in
+        ({| r_map := if ref_registered o r then r_sub tx (HNode o (KSdoExtra k)) (r_map r) else r_map r;
+            r_nodes := r_nodes r; r_scan := r_scan r;
+            r_chans := fun x => if nobj_eqb x o then r_chans r o ++ [tx] else r_chans r x |}, [])
   end.
 
 Fixpoint ref_run (ops : list op) (r : rnet) : rnet * list (list delivery) :=
